@@ -659,6 +659,10 @@ func (c *FnCtx) enterLoop(fr *Frame, h *ssa.BasicBlock, ord int, st *State) *Sta
 		if _, live := st.cells[cell]; !live && cell.global == nil {
 			continue // allocated inside the loop body
 		}
+		if cell.typ == nil {
+			c.setCell(out, cell, ts.Fresh(fmt.Sprintf("lp%d!%s", ord, cell.name), cell.ghostSort))
+			continue
+		}
 		nv := ts.Fresh(fmt.Sprintf("lp%d!%s", ord, cell.name), c.eng.tc.SortOf(cell.typ))
 		c.typeFacts(out, nv, cell.typ)
 		c.setCell(out, cell, nv)
